@@ -76,6 +76,14 @@ class P(Process):
 
     def ports_schema(self):
         n = self.name
+        if self.run.cfg.get('lists'):
+            # a list-valued variable under the default updater (accumulate =
+            # concatenation); the first process echoes the list it was shown
+            return {'s': {
+                'x_' + n: {'_default': 0, '_emit': True},
+                'y_' + n: {'_default': 0, '_updater': tag_updater},
+                'z': {'_default': 0, '_emit': True},
+                'vec': {'_default': []}}}
         if self.run.cfg.get('twoports'):
             # two ports of the process are wired to one store
             return {'s': {
@@ -139,6 +147,20 @@ class P(Process):
             rec['empty'] = True
             run.ctx.goal('empty update')
             return {}
+        if run.cfg.get('lists'):
+            if n == 'p0':
+                # "append what is there now": the update is the very object
+                # the process was shown in its states
+                vec = states['s']['vec']
+                rec['vec_len'] = len(vec)
+                rec['vec_sum'] = sum(vec, 0)
+                run.ctx.goal('list-valued variable, update echoes the view')
+            else:
+                vec = [d]
+                rec['vec_len'] = 1
+                rec['vec_sum'] = d
+            return {'s': {'x_' + n: d, 'y_' + n: Tagged((n, k)), 'z': d,
+                          'vec': vec}}
         if run.cfg.get('twoports'):
             # the process keeps one update dictionary and refills it
             if self._upd is None:
@@ -236,6 +258,8 @@ def build(ctx, cfg):
         kwargs['steps'] = {'st': NullStep()}
         kwargs['flow'] = {'st': []}
         topology['st'] = {'s': ('s',)}
+    if cfg.get('lists'):
+        kwargs['initial_state'] = {'s': {'vec': [1]}}
     e = Engine(processes=processes, topology=topology,
                emitter={'type': 'vsym_rec'}, display_info=False, **kwargs)
     run.engine = e
